@@ -14,6 +14,7 @@ from typing import Any, Dict, List
 import z3
 
 from hv import core, extract, framevc as fv, pyvc
+from hv import history
 from hv.driver import Bounded, Spec
 from hv.pyvc import to_z3
 
@@ -180,7 +181,7 @@ def units(ctx):
 SPEC = Spec(
     prop=PROP, level="proof",
     functions=[(CK, "CudaKernelAnalysis.cuda_kernel_launch_stats"), (TA, "TraceAnalysis.get_cuda_kernel_launch_stats")],
-    units=units, bounded=[Bounded("stats_vs_pairs", bounded)],
+    units=units, bounded=[Bounded("stats_vs_pairs", bounded), Bounded("history_independence", history.stage(PROP, "launch_stats", "gen"))],
     trusted=["pandas contracts (selection, isin over a series' values, inner merge on one key with _x/_y suffixes, clip, rename, projection)",
              "well-formedness: launch calls are host events (stream -1) carrying a correlation id; a correlation id occurs at most once among host events",
              "symbol table bijection (C11); dict.get(key, None) modelled as an optional id that equals no name when absent"],
